@@ -9,8 +9,9 @@
      src/HttpReply.cc            HttpReply::recreateOnNotModified
    The list reader (strListGetItem / strListIsMember / strListAdd) is the model of src/StrList.cc in HopModel.v;
    header ids and the `list` attribute come from the regenerated registered-header table.
-   Not modelled (inputs of the model, supplied by the caller): the value of Time::ParseRfc1123 on a date string
-   (times are Z, -1 = absent/unparsable), HttpHdrRange parsing (flags.isRanged is a bool input). *)
+   Not modelled: Time::ParseRfc1123 (a Section variable `parse_date`, any function bytes -> Z; the theorems hold for
+   every such function; the runner supplies the values for the date strings of a scenario), HttpHdrRange parsing
+   (flags.isRanged is a bool input), the entry's `timestamp` (Z input). *)
 Require Import SquidV.Bytes SquidV.HopModel.
 Require Import SquidV.gen.HdrTable_gen.
 Local Open Scope N_scope.
@@ -72,14 +73,24 @@ Record creq := {
   rq_get_or_head : bool;    (* method == GET || method == HEAD *)
   rq_ranged : bool;         (* flags.isRanged *)
   rq_hdrs : list hdr;       (* request header entries in order *)
-  rq_ims : Z;               (* header.getTime(IF_MODIFIED_SINCE): -1 when absent or unparsable *)
 }.
 Record centry := {
   en_status : N;            (* mem().baseReply().sline.status() *)
   en_hdrs : list hdr;       (* freshestReply() header entries in order *)
-  en_lastmod : Z;           (* lastModified_: parsed Last-Modified or -1 *)
   en_timestamp : Z;         (* timestamp *)
 }.
+
+Section WithDateParser.
+(* Time::ParseRfc1123 applied to a field value; returns -1 for an unparsable date. No contract is assumed. *)
+Variable parse_date : bytes -> Z.
+
+(* HttpHeader::getTime(id): -1 unless an entry exists; then ParseRfc1123 of the first entry *)
+Definition get_time (id : N) (hs : list hdr) : Z :=
+  match find_entry id hs with None => (-1)%Z | Some v => parse_date v end.
+(* clientInterpretRequestHeaders: request->ims = req_hdr->getTime(IF_MODIFIED_SINCE) *)
+Definition rq_ims (r : creq) : Z := get_time ID_IF_MODIFIED_SINCE (rq_hdrs r).
+(* timestampsSet: lastModified_ = reply->last_modified = header.getTime(LAST_MODIFIED) *)
+Definition en_lastmod (e : centry) : Z := get_time ID_LAST_MODIFIED (en_hdrs e).
 
 (* clientInterpretRequestHeaders: if (request->ims > 0) flags.ims = true *)
 Definition ims_flag (r : creq) : bool := (0 <? rq_ims r)%Z.
@@ -125,6 +136,8 @@ Definition process_conditional (r : creq) (e : centry) : cverdict :=
 (* the fresh-hit path of cacheHit for a 200/non-200 entry *)
 Definition hit_verdict (r : creq) (e : centry) : cverdict :=
   if is_conditional r then process_conditional r e else VHit.
+
+End WithDateParser.
 
 (* ---------- 304 revalidation: HttpHeader::update and friends ---------- *)
 Definition skip_update_header (id : N) : bool := id =? ID_VARY.
@@ -186,20 +199,28 @@ Record cobject := { ob_hdrs : list hdr; ob_body : bytes }.
 Definition revalidated_304 (o : cobject) (fresh304 : list hdr) : cobject :=
   {| ob_hdrs := update_on_not_modified (ob_hdrs o) fresh304; ob_body := ob_body o |}.
 
-(* handleIMSReply, origin replied 304 (after the update, with the entry's refreshed timestamps):
-   true = forward the origin's 304 to the client, false = send the (updated) old entry *)
-Definition ims_reply_forward_304 (r : creq) (e_after : centry) : bool :=
-  ims_flag r && negb (modified_since e_after (rq_ims r)).
+(* ---------- clientReplyContext::handleIMSReply: the origin answered our revalidation request ---------- *)
+Inductive reval_reply :=
+  | RForward304   (* sendClientUpstreamResponse of the origin's 304 *)
+  | ROld          (* sendClientOldEntry: the (possibly updated) cached response *)
+  | RNew.         (* sendClientUpstreamResponse of the origin's new response, which replaces the cached one *)
 
-(* ---------- what the end-to-end observation shows ---------- *)
-(* status code seen by the client for a request answered from a FRESH cached entry *)
-Definition hit_status (r : creq) (e : centry) : N :=
-  match hit_verdict r e with
-  | V304 => 304
-  | V412 => 412
-  | VHit => if rq_ranged r then 206 else 200
-  | VMiss => en_status e
-  end.
+Section Revalidation.
+Variable parse_date : bytes -> Z.
+(* r: the client's request; old: the stale entry; status/fresh: the origin's reply; ts_after: the entry's timestamp
+   after timestampsSet(); older: new_rep.olderThan(old reply); fail_on_err: flags.failOnValidationError.
+   Returns what the client gets and the header the cache holds for the URL afterwards. *)
+Definition handle_ims_reply (r : creq) (old : centry) (status : N) (fresh : list hdr) (ts_after : Z)
+           (older fail_on_err : bool) : reval_reply * list hdr :=
+  if status =? 304 then
+    let merged := update_on_not_modified (en_hdrs old) fresh in
+    let e_after := {| en_status := en_status old; en_hdrs := merged; en_timestamp := ts_after |} in
+    if ims_flag parse_date r && negb (modified_since parse_date e_after (rq_ims parse_date r))
+    then (RForward304, merged) else (ROld, merged)
+  else if (0 <? status) && (status <? 500) then
+    if older then (ROld, en_hdrs old) else (RNew, fresh)
+  else if fail_on_err then (RNew, en_hdrs old) else (ROld, en_hdrs old).
+End Revalidation.
 
 (* tracked header fields (by name, caseless) of a stored header, in order *)
 Definition tracked (names : list bytes) (hs : list hdr) : list hdr :=
